@@ -117,6 +117,8 @@ MB_Labels(o)    == \A i \in DOMAIN o.slots :
                       /\ o.slots[i].lab < Len(o.modes)
                       /\ o.modes[o.slots[i].lab + 1] \in {o.slots[i].lab, FallbackMode}
 MB_ModesOK(o)   == o.modesOK
+\* the kernel is told exactly the boundary designation the sampler was configured with
+MB_Boundaries(o) == o.periodic = cfg.periodic /\ o.reflective = cfg.reflective
 
 \* ---- Sweep.  o = [mask, prop, slots, dEvals]
 SweepPost(mask, prop) ==
@@ -160,7 +162,8 @@ TR_Clauses(o) == [TR_Skip |-> TR_Skip(o), TR_Branch |-> TR_Branch(o), TR_Predict
 RS_Clauses(o) == [RS_WholeCopies |-> RS_WholeCopies(o), RS_Count |-> RS_Count(o), RS_LabelRange |-> RS_LabelRange(o)]
 MP_Clauses(o) == [MP_Count |-> MP_Count(o), MP_Coherent |-> MP_Coherent(o), MP_NoInf |-> MP_NoInf(o),
                   MP_Calls |-> MP_Calls(o), MP_Evals |-> MP_Evals(o), MP_LogzHull |-> MP_LogzHull(o)]
-MB_Clauses(o) == [MB_SameSlots |-> MB_SameSlots(o), MB_Labels |-> MB_Labels(o), MB_ModesOK |-> MB_ModesOK(o)]
+MB_Clauses(o) == [MB_SameSlots |-> MB_SameSlots(o), MB_Labels |-> MB_Labels(o), MB_ModesOK |-> MB_ModesOK(o),
+                  MB_Boundaries |-> MB_Boundaries(o)]
 SW_Clauses(o) == [SW_PropCoherent |-> SW_PropCoherent(o), SW_Update |-> SW_Update(o), SW_Evals |-> SW_Evals(o)]
 ME_Clauses(o) == [ME_Slots |-> ME_Slots(o), ME_Calls |-> ME_Calls(o), ME_Swept |-> ME_Swept(o),
                   ME_Steps |-> ME_Steps(o), ME_SweepBounds |-> ME_SweepBounds(o)]
